@@ -77,6 +77,12 @@ def check_run(spec, r):
         elif e['ev'] == 'cancel' and e['before'] == 'ACTIVE' and e['after'] == 'CANCELED':
             can[e['ord']] = e
     aborted = r['error'] is not None
+    last_started, seen_min = {}, {}
+    for e in r['trace']:
+        if e['ev'] in ('minute', 'chunk'):
+            k = 1 if e['ev'] == 'minute' else len(e['candles'])
+            last_started[e['sym']] = seen_min.get(e['sym'], 0)
+            seen_min[e['sym']] = seen_min.get(e['sym'], 0) + k
     # candidates per (symbol, minute): how many resting orders had their price inside the minute (for classification only)
     for o in r['orders']:
         s = sub.get(o['ord'])
@@ -145,7 +151,8 @@ def check_run(spec, r):
             else:
                 last = n - 1
                 if aborted:
-                    last = min(last, int((r['trace'][-1].get('t', T0) - T0) // MIN) - 2)
+                    # the run was cut short: only minutes before the symbol's last started minute/chunk were certainly matched
+                    last = min(last, last_started.get(o['sym'], 0) - 1)
             hit = [m for m in range(m0, min(last, n - 1) + 1) if inside(m)]
             if last >= m0:
                 stats['survived'] += 1
